@@ -3,9 +3,9 @@
 # record the context summary (axioms of every loaded library). Output: coq/COQCHK.txt
 cd "$(dirname "$0")/../coq" || exit 2
 out=COQCHK.txt; : > $out.tmp
-for p in C01 C02 C03 C04 C05 C06 C07 C08 C09 C10 C11 C12 C13 C14 C15 C16 C17 C18 C19 C20; do
+for p in C01 C04 C05 C06 C07 C08 C10 C11 C12 C13 C14 C15 C16 C18 C20 C02 C03 C09 C17 C19; do
   echo "=== Props/$p.vo" >> $out.tmp
-  timeout 3600 coqchk -silent -o -Q theories PV PV.Props.$p 2>&1 | sed -n '/CONTEXT SUMMARY/,$p' >> $out.tmp
+  timeout 2400 coqchk -silent -o -Q theories PV PV.Props.$p 2>&1 | sed -n '/CONTEXT SUMMARY/,$p' >> $out.tmp
   echo "exit status: ${PIPESTATUS[0]}" >> $out.tmp
 done
 mv $out.tmp $out
